@@ -8,17 +8,21 @@ SPEC = {
     ],
     "rule": ("rapid-generated ammo files (internal/ammogen, all layout knobs; tags drawn from a small pool so they repeat; untagged "
              "entries) in the four HTTP formats x limit 0..12 x passes 0..3 x chosencases (none / a subset of the pool incl. the empty "
-             "tag / a tag matching nothing); each case builds the provider twice, preload off and on, through config.DecodeAndValidate "
+             "tag / a tag matching nothing) x the documented header/date ammo middleware (absent in two cases of three; default or custom "
+             "headerName outside the ammo's own header names, location unset / UTC / EST); each case builds the provider twice, preload off and on, through config.DecodeAndValidate "
              "and drains both. Non-trivial = chosencases selects a proper non-empty subset, or a bound is hit; distinct = hash of the "
              "case. Cases whose filter matches nothing are steered away while the known finding is listed (counted in excluded_known); "
              "its fixed witness runs in TestKnownWitness."),
     "floors": {"TestPreloadEquivalence/proper_subset": 0.15, "TestPreloadEquivalence/filter_x_limit": 0.08,
-               "TestPreloadEquivalence/filter_x_passes": 0.08, "TestPreloadEquivalence/limit_hit_with_filter": 0.03},
+               "TestPreloadEquivalence/filter_x_passes": 0.08, "TestPreloadEquivalence/limit_hit_with_filter": 0.03,
+               "TestPreloadEquivalence/date_middleware": 0.2, "TestPreloadEquivalence/date_middleware_entry_redelivered": 0.12,
+               "TestPreloadEquivalence/date_middleware_redelivered_entry_has_headers": 0.07},
     "manifest": {
         "technique": "differential property testing (rapid): the same generated file and settings with preload off vs on, plus an absolute model of chosencases/limit/passes",
         "text": ("Both providers must deliver exactly the entries whose tag is listed, in file order, cyclically, identical item by item "
                  "(method, URI, body, tag, Host, headers), stop after min(limit, passes*selected) delivered items and end the same way "
-                 "(Run nil, end of ammo observed)."),
+                 "(Run nil, end of ammo observed). With the header/date middleware configured every delivered request, on every pass and in "
+                 "both modes, carries exactly one non-empty value of the date header and no other header the entry does not define."),
         "note": ("One listed known finding (filter matching nothing ends differently with preload) is excluded by construction and "
                  "re-confirmed by a fixed witness each run; any other disagreement is a violation."),
     },
